@@ -620,6 +620,11 @@ class Buffer(gpp.UGenParameter, gpp.NodeParameter):
 
         server = server or srv.Server.default
         server._free_all_buffers()
+        # The known buffer objects don't own their numbers any more.
+        for buf in list(cls._server_caches.get(server, dict()).values()):
+            if isinstance(buf, cls):
+                buf._bufnum = buf._frames = buf._channels = None
+                buf._sample_rate = buf._path = buf._start_frame = None
         cls._clear_server_caches(server)
 
     def zero(self, completion_msg=None):
